@@ -67,6 +67,9 @@ Inductive weffect (s : state) (w : nat) : state -> Prop :=
     weffect s w (set_w s w (mkW (wl (ws s w)) (WRun true (on_eof c w (wl (ws s w)))) (wtaken (ws s w)) true (wdropped (ws s w))))
 | WE_ctl ctl' :
     ctl_next (wc (ws s w)) ctl' ->
+    (forall u sel eof rest, wc (ws s w) = WSleep u sel eof rest -> (u <= now s)%N) ->   (* a timer fires only when due *)
+    (forall eof d rest, wc (ws s w) = WRun eof (ASleep d :: rest) -> ctl' = WSleep (now s + d) false eof rest) ->
+    (forall eof d rest, wc (ws s w) = WRun eof (ASleepSel d :: rest) -> ctl' = WSleep (now s + d) true eof rest) ->
     weffect s w (set_w s w (with_ctl (ws s w) ctl'))
 | WE_push eof a k v rest :
     wc (ws s w) = WRun eof (a :: rest) -> sends_on a k v -> cclosed (outs s k) = false ->
@@ -102,7 +105,7 @@ Proof.
   - destruct todo as [|a rest].
     + destruct eof.
       * inversion H; subst. apply WE_finish; rewrite ?Ec; simpl; auto; try congruence; eauto 6.
-      * inversion H; subst. apply WE_ctl; rewrite ?Ec; constructor; unfold skippable, sleepy; eauto.
+      * inversion H; subst. apply WE_ctl; rewrite ?Ec; try (constructor; unfold skippable, sleepy; eauto; fail); intros; try discriminate; try (match goal with H : _ = _ |- _ => inversion H; subst; auto end).
     + destruct a as [k v|k v| |k|d|d|].
       * (* ASend *)
         destruct ((has_room (outs s k) || cclosed (outs s k)) && (negb (cancelled s) || ch)) eqn:E1.
@@ -119,21 +122,23 @@ Proof.
       * (* APoll *)
         destruct (cancelled s) eqn:Ecn; inversion H; subst.
         -- apply WE_finish; rewrite ?Ec; simpl; auto; try congruence; eauto 6.
-        -- apply WE_ctl; rewrite ?Ec; constructor; unfold skippable, sleepy; eauto.
+        -- apply WE_ctl; rewrite ?Ec; try (constructor; unfold skippable, sleepy; eauto; fail); intros; try discriminate; try (match goal with H : _ = _ |- _ => inversion H; subst; auto end).
       * (* ATok *)
         destruct ((negb match cbuf (outs s k) with [] => true | _ :: _ => false end || cclosed (outs s k))
                   && (negb (cancelled s) || ch)) eqn:E1.
         -- destruct (cbuf (outs s k)) as [|t r] eqn:Eb; inversion H; subst.
-           ++ apply WE_ctl; rewrite ?Ec; constructor; unfold skippable, sleepy; eauto.
+           ++ apply WE_ctl; rewrite ?Ec; try (constructor; unfold skippable, sleepy; eauto; fail); intros; try discriminate; try (match goal with H : _ = _ |- _ => inversion H; subst; auto end).
            ++ eapply WE_tok; eauto.
         -- destruct (cancelled s) eqn:Ecn; [|discriminate]. inversion H; subst.
            apply WE_finish; rewrite ?Ec; simpl; auto; try congruence; eauto 6.
-      * inversion H; subst. apply WE_ctl; rewrite ?Ec; constructor; unfold skippable, sleepy; eauto.
-      * inversion H; subst. apply WE_ctl; rewrite ?Ec; constructor; unfold skippable, sleepy; eauto.
+      * inversion H; subst. apply WE_ctl; rewrite ?Ec; try (constructor; unfold skippable, sleepy; eauto; fail); intros; try discriminate; try (match goal with H : _ = _ |- _ => inversion H; subst; auto end).
+      * inversion H; subst. apply WE_ctl; rewrite ?Ec; try (constructor; unfold skippable, sleepy; eauto; fail); intros; try discriminate; try (match goal with H : _ = _ |- _ => inversion H; subst; auto end).
       * inversion H; subst. apply WE_finish; rewrite ?Ec; simpl; auto; try congruence; eauto 6.
   - (* WSleep *)
     destruct (N.leb until (now s) && (negb (sel && cancelled s) || ch)) eqn:E1.
-    + inversion H; subst. apply WE_ctl; rewrite ?Ec; constructor; unfold skippable, sleepy; eauto.
+    + inversion H; subst. apply WE_ctl; rewrite ?Ec; try (constructor; fail); intros; try discriminate.
+      match goal with H : WSleep _ _ _ _ = WSleep _ _ _ _ |- _ => inversion H; subst end.
+      apply andb_prop in E1. destruct E1 as [E1 _]. apply N.leb_le. exact E1.
     + destruct (sel && cancelled s) eqn:Esc; [|discriminate]. inversion H; subst.
       apply andb_prop in Esc. destruct Esc as [_ Ecn].
       apply WE_finish; rewrite ?Ec; simpl; auto; try congruence; eauto 6.
